@@ -18,6 +18,10 @@ def select(dst, *srcs): return {"op": "select", "dst": dst, "srcs": list(srcs)}
 def fail(e="InvalidArgument:Division by zero"): return {"op": "fail", "e": e}
 def ret(val): return {"op": "ret", "val": val}
 def let(dst, val): return {"op": "let", "dst": dst, "val": val}
+def mint(dst): return {"op": "mint", "dst": dst}                       # %ref
+def ropen(dst): return {"op": "open", "dst": dst}                      # __file_open__ on the simulated backend
+def ruse(dst, reg): return {"op": "use", "dst": dst, "reg": reg}       # __file_read__ of one byte
+def rclose(reg): return {"op": "close", "dst": 8, "reg": reg}          # __file_close__
 
 def aw(reg): return {"k": "await", "reg": reg}
 def recv(tys=("int",), acc=None, body="pure"):
@@ -34,7 +38,7 @@ def scenario(name, scripts, nw=2, maxtick=0, maxfuel=3, placement="mod", defects
 # ---------------------------------------------------------------------------
 # Rendering to Quiver source
 # ---------------------------------------------------------------------------
-TYNAMES = {"int": "'int", "bin": "'bin", "tup": "['int, 'int]", "btup": "['bin, 'bin]"}
+TYNAMES = {"int": "'int", "bin": "'bin", "tup": "['int, 'int]", "btup": "['bin, 'bin]", "res": "\\File", "ref": "'ref"}
 
 def q_val(v):
     k = v["k"]
@@ -92,6 +96,14 @@ class Renderer:
                 steps.append("s%dr%d = ! [%s]" % (sid, op["dst"], ", ".join(self.src(s, sid) for s in op["srcs"])))
             elif o == "fail":
                 steps.append("[1, 0] __integer_divide__")
+            elif o == "mint":
+                steps.append("s%dr%d = %%ref" % (sid, op["dst"]))
+            elif o == "open":
+                steps.append("s%dr%d = [0x2f78, 0, 0] __file_open__" % (sid, op["dst"]))
+            elif o == "use":
+                steps.append("s%dr%d = [&s%dr%d, 0, 1] __file_read__" % (sid, op["dst"], sid, op["reg"]))
+            elif o == "close":
+                steps.append("s%dr%d = &s%dr%d __file_close__" % (sid, op["dst"], sid, op["reg"]))
             elif o == "let":
                 steps.append("s%dr%d = %s" % (sid, op["dst"], q_expr(op["val"], sid)))
             elif o == "ret":
